@@ -62,22 +62,29 @@ static econf_err do_set(econf_file *f, const char *key, int type, uint64_t bits)
   }
 }
 
-/* returns 0 when the getter gives back exactly the stored value; fills msg otherwise */
-static int do_get_check(econf_file *f, const char *key, int type, uint64_t bits, char *msg, size_t cap)
+/* returns 0 when the getter gives back exactly the stored value; fills msg otherwise. def = 1: the defaulted getter of the same
+ * type, called with a default that differs from the stored value (the key exists, so the default must not be used). */
+static int do_get_check1(econf_file *f, const char *key, int type, uint64_t bits, char *msg, size_t cap, int def)
 {
   econf_err rc;
+  const char *gn = def ? "defaulted getter: " : "";
   errno = ERANGE;   /* a getter must not depend on what an earlier call left in errno (ERANGE is the value the getters test for) */
   switch (type) {
-  case T_I32: { int32_t v = 0; rc = econf_getIntValue(f, NULL, key, &v); if (rc || v != (int32_t)(uint32_t)bits) { snprintf(msg, cap, "rc=%d got %" PRId32, (int)rc, v); return 1; } return 0; }
-  case T_U32: { uint32_t v = 0; rc = econf_getUIntValue(f, NULL, key, &v); if (rc || v != (uint32_t)bits) { snprintf(msg, cap, "rc=%d got %" PRIu32, (int)rc, v); return 1; } return 0; }
-  case T_F32: { float v = 0, w; uint32_t b = (uint32_t)bits, g; memcpy(&w, &b, 4); rc = econf_getFloatValue(f, NULL, key, &v); memcpy(&g, &v, 4);
-    if (rc || !(g == b || (isnan(v) && isnan(w)))) { snprintf(msg, cap, "rc=%d got bits 0x%08x (%.9g)", (int)rc, g, (double)v); return 1; } return 0; }
-  case T_I64: { int64_t v = 0; rc = econf_getInt64Value(f, NULL, key, &v); if (rc || v != (int64_t)bits) { snprintf(msg, cap, "rc=%d got %" PRId64, (int)rc, v); return 1; } return 0; }
-  case T_U64: { uint64_t v = 0; rc = econf_getUInt64Value(f, NULL, key, &v); if (rc || v != bits) { snprintf(msg, cap, "rc=%d got %" PRIu64, (int)rc, v); return 1; } return 0; }
-  case T_F64: { double v = 0, w; uint64_t g; memcpy(&w, &bits, 8); rc = econf_getDoubleValue(f, NULL, key, &v); memcpy(&g, &v, 8);
-    if (rc || !(g == bits || (isnan(v) && isnan(w)))) { snprintf(msg, cap, "rc=%d got bits 0x%016" PRIx64 " (%.17g)", (int)rc, g, v); return 1; } return 0; }
-  default: { bool v = false; int want = bool_truth[bits % (uint64_t)nbool]; rc = econf_getBoolValue(f, NULL, key, &v); if (rc || (int)v != want) { snprintf(msg, cap, "rc=%d got %d", (int)rc, (int)v); return 1; } return 0; }
+  case T_I32: { int32_t v = 0, want = (int32_t)(uint32_t)bits; rc = def ? econf_getIntValueDef(f, NULL, key, &v, want == -7 ? 7 : -7) : econf_getIntValue(f, NULL, key, &v); if (rc || v != want) { snprintf(msg, cap, "%src=%d got %" PRId32, gn, (int)rc, v); return 1; } return 0; }
+  case T_U32: { uint32_t v = 0; rc = def ? econf_getUIntValueDef(f, NULL, key, &v, (uint32_t)bits == 7 ? 8 : 7) : econf_getUIntValue(f, NULL, key, &v); if (rc || v != (uint32_t)bits) { snprintf(msg, cap, "%src=%d got %" PRIu32, gn, (int)rc, v); return 1; } return 0; }
+  case T_F32: { float v = 0, w; uint32_t b = (uint32_t)bits, g; memcpy(&w, &b, 4); rc = def ? econf_getFloatValueDef(f, NULL, key, &v, w == 7.5f ? 8.5f : 7.5f) : econf_getFloatValue(f, NULL, key, &v); memcpy(&g, &v, 4);
+    if (rc || !(g == b || (isnan(v) && isnan(w)))) { snprintf(msg, cap, "%src=%d got bits 0x%08x (%.9g)", gn, (int)rc, g, (double)v); return 1; } return 0; }
+  case T_I64: { int64_t v = 0; rc = def ? econf_getInt64ValueDef(f, NULL, key, &v, (int64_t)bits == -7 ? 7 : -7) : econf_getInt64Value(f, NULL, key, &v); if (rc || v != (int64_t)bits) { snprintf(msg, cap, "%src=%d got %" PRId64, gn, (int)rc, v); return 1; } return 0; }
+  case T_U64: { uint64_t v = 0; rc = def ? econf_getUInt64ValueDef(f, NULL, key, &v, bits == 7 ? 8 : 7) : econf_getUInt64Value(f, NULL, key, &v); if (rc || v != bits) { snprintf(msg, cap, "%src=%d got %" PRIu64, gn, (int)rc, v); return 1; } return 0; }
+  case T_F64: { double v = 0, w; uint64_t g; memcpy(&w, &bits, 8); rc = def ? econf_getDoubleValueDef(f, NULL, key, &v, w == 7.5 ? 8.5 : 7.5) : econf_getDoubleValue(f, NULL, key, &v); memcpy(&g, &v, 8);
+    if (rc || !(g == bits || (isnan(v) && isnan(w)))) { snprintf(msg, cap, "%src=%d got bits 0x%016" PRIx64 " (%.17g)", gn, (int)rc, g, v); return 1; } return 0; }
+  default: { bool v = false; int want = bool_truth[bits % (uint64_t)nbool]; rc = def ? econf_getBoolValueDef(f, NULL, key, &v, !want) : econf_getBoolValue(f, NULL, key, &v); if (rc || (int)v != want) { snprintf(msg, cap, "%src=%d got %d", gn, (int)rc, (int)v); return 1; } return 0; }
   }
+}
+static int do_get_check(econf_file *f, const char *key, int type, uint64_t bits, char *msg, size_t cap)
+{
+  if (do_get_check1(f, key, type, bits, msg, cap, 0)) return 1;
+  return do_get_check1(f, key, type, bits, msg, cap, 1);
 }
 
 static void report(int type, uint64_t bits, const char *what, const char *msg)
